@@ -130,7 +130,7 @@ fn en_occupied(sh: Shape, op: Occ) {
     assert!(hashes() == 1 && acct::allocs() == 0 && acct::inserts() == 0, "[C02] an occupied-entry operation hashed more than the key, allocated or moved elements");
     assert!(old_len(&m) == l0 - if sk.in_old && pre_k.is_some() && want_k.is_none() { 1 } else { 0 }, "[C03] an occupied-entry operation changed the leftovers unexpectedly");
     if op == Occ::Remove || op == Occ::RemoveEntry {
-        post_freed_if_empty(&m);
+        post_freed_if_empty(&m, l0);
     }
     post_inv(&m, &sq);
     assert!(m.get(&k).copied() == want_k, "[C12] a later lookup does not see the write made through the handle");
@@ -182,7 +182,7 @@ fn en_vacant_insert(sh: Shape) {
     assert!(sq.val == if q == k { Some(w) } else { pre_q }, "[C12] a write through the reference returned by VacantEntry::insert is not seen by the map");
     assert!(m.len() == n + 1, "[C01] len() wrong after VacantEntry::insert");
     assert!(m.get(&k) == Some(&w), "[C12] a later lookup does not see the write made through the returned reference");
-    post_freed_if_empty(&m);
+    post_freed_if_empty(&m, usize::MAX);
     post_inv(&m, &sq);
     kani::cover!(grew, "cls: the inserting call started a resize");
     kani::cover!(acct::removes() > 0, "cls: the inserting call moved elements");
